@@ -1555,4 +1555,123 @@ theorem setLoop_error_slot (vars : List Var) (sizes sel : List Nat) (err : Err) 
     · rw [setLoop_cons_neg _ _ _ _ _ _ _ _ _ _ hp, ih (fun q hq => hf q (List.mem_cons_of_mem _ hq)),
         List.filter_cons_of_neg (by simpa using hp)]
 
+/-! ### `update_variable_num_dofs` -/
+
+theorem updateLoop_spec (e : Env) (numbers : List (Nat × Nat)) (l : List Var) (sizes : List Nat)
+    (hd : l.Pairwise (fun v w => (numberOf numbers v.id).getD 0 ≠ (numberOf numbers w.id).getD 0))
+    (hlt : ∀ v ∈ l, (numberOf numbers v.id).getD 0 < sizes.length) :
+    (updateLoop e numbers sizes l).length = sizes.length ∧
+    (∀ v ∈ l, (updateLoop e numbers sizes l).getD ((numberOf numbers v.id).getD 0) 0 = varSize e v) ∧
+    (∀ k, (∀ v ∈ l, (numberOf numbers v.id).getD 0 ≠ k) →
+      (updateLoop e numbers sizes l).getD k 0 = sizes.getD k 0) := by
+  induction l generalizing sizes with
+  | nil => exact ⟨rfl, by simp, fun _ _ => rfl⟩
+  | cons v r ih =>
+    obtain ⟨hv, hr⟩ := List.pairwise_cons.mp hd
+    have hlen : (sizes.set ((numberOf numbers v.id).getD 0) (varSize e v)).length = sizes.length := by simp
+    obtain ⟨i1, i2, i3⟩ := ih (sizes.set ((numberOf numbers v.id).getD 0) (varSize e v)) hr
+      (fun w hw => by rw [hlen]; exact hlt w (List.mem_cons_of_mem _ hw))
+    refine ⟨by rw [updateLoop, i1, hlen], ?_, ?_⟩
+    · intro w hw
+      rw [updateLoop]
+      rcases List.mem_cons.mp hw with rfl | hw
+      · rw [i3 _ (fun u hu => (hv u hu).symm)]
+        simp [List.getD_eq_getElem?_getD, List.getElem?_set_self (hlt w List.mem_cons_self)]
+      · exact i2 w hw
+    · intro k hk
+      rw [updateLoop, i3 k (fun u hu => hk u (List.mem_cons_of_mem _ hu))]
+      have : (numberOf numbers v.id).getD 0 ≠ k := hk v List.mem_cons_self
+      simp [List.getD_eq_getElem?_getD, List.getElem?_set_ne this]
+
+theorem inv_numbers_distinct {e : Env} {s : State} (h : Inv e s) :
+    s.vars.Pairwise (fun v w => (numberOf s.numbers v.id).getD 0 ≠ (numberOf s.numbers w.id).getD 0) := by
+  have hp : s.vars.Pairwise (fun a b => a.id < b.id) := List.pairwise_map.mp h.idsLt
+  refine List.Pairwise.imp_of_mem ?_ hp
+  intro v w hv hw hlt heq
+  obtain ⟨b, hb, _, hb3⟩ := inv_numberOf_of_mem h v hv
+  obtain ⟨b', hb', _, hb3'⟩ := inv_numberOf_of_mem h w hw
+  rw [hb, hb'] at heq
+  simp only [Option.getD_some] at heq
+  subst heq
+  rw [hb3] at hb3'
+  have := Option.some.inj hb3'
+  omega
+
+/-- After the grids were refined / coarsened (same md-grid listing, other entity counts),
+    `update_variable_num_dofs` re-establishes the layout invariant for the new grid. -/
+theorem updateNumDofs_inv (e e' : Env) (hs : e'.subs = e.subs) (hi : e'.intfs = e.intfs) (s : State)
+    (h : Inv e s) : Inv e' (updateNumDofs e' s) := by
+  have hlt : ∀ v ∈ s.vars, (numberOf s.numbers v.id).getD 0 < s.sizes.length := by
+    intro v hv
+    obtain ⟨b, hb, hblt, _⟩ := inv_numberOf_of_mem h v hv
+    rw [hb]; exact hblt
+  obtain ⟨u1, u2, _⟩ := updateLoop_spec e' s.numbers s.vars s.sizes (inv_numbers_distinct h) hlt
+  refine ⟨h.numbered, h.perm, h.idsLt, h.fresh, ?_, ?_, ?_⟩
+  · show (updateLoop e' s.numbers s.sizes s.vars).length = s.numbers.length
+    rw [u1, h.sizesLen]
+  · intro v hv
+    rw [hs, hi]; exact h.kindOk v hv
+  · intro v hv
+    exact u2 v hv
+
+/-! ### a call that succeeds leaves a clustered layout, whatever happened before -/
+
+theorem create_ok_clustered (e : Env) (s : State) (name : Nat) (dof : List (Nat × Nat))
+    (subs intfs : Option (List Nat)) (ids : List Nat)
+    (h : (create e s name dof subs intfs).2 = .ok ids) : Clustered e (create e s name dof subs intfs).1 := by
+  have key : ∀ isSub gs, (createOn e s name dof isSub gs).2 = .ok ids →
+      Clustered e (createOn e s name dof isSub gs).1 := by
+    intro isSub gs hk
+    unfold createOn at hk ⊢
+    split
+    · rename_i hany; rw [if_pos hany] at hk; cases hk
+    · rename_i hany
+      rw [if_neg hany] at hk
+      rcases hA : addLoop e name dof isSub s gs with ⟨s', _ | err⟩
+      · rw [hA] at hk
+        simp only at hk ⊢
+        split
+        · exact clustered_cluster e s'
+        · rename_i hnd; rw [if_neg hnd] at hk; cases hk
+      · rw [hA] at hk; cases hk
+  unfold create at h ⊢
+  split
+  · rename_i hb; rw [if_pos hb] at h; cases h
+  · rename_i hb
+    rw [if_neg hb] at h
+    split
+    · exact key true _ h
+    · exact key false _ h
+    · rename_i h1 h2
+      cases subs <;> cases intfs <;> simp_all
+
+theorem removeLoop_ok_clustered (e : Env) (s : State) (i : Nat) (r : List Nat)
+    (h : (removeLoop e s (i :: r)).2 = .ok ()) : Clustered e (removeLoop e s (i :: r)).1 := by
+  by_cases hany : s.vars.any (fun v => v.id == i) = true
+  · rw [removeLoop_cons_pos e s i r hany]
+    exact removeLoop_clustered e r _ (clustered_cluster e _)
+  · rw [removeLoop, if_neg hany] at h
+    cases h
+
+/-! ### `md_variable` -/
+
+theorem mdVariable_none_ok (s : State) (name : Nat) (ids : List Nat)
+    (h : mdVariable s name none = .ok ids) : ids = parse s (some [.name name]) ∧ ids ≠ [] := by
+  unfold mdVariable at h
+  simp only at h
+  cases hf : s.vars.filter (fun v => v.name == name) with
+  | nil => rw [hf] at h; cases h
+  | cons v r =>
+    rw [hf] at h
+    simp only at h
+    split at h
+    · cases h
+    · cases h
+      refine ⟨?_, by simp⟩
+      simp [parse, parseRef, hf]
+
+theorem mdVariable_some (s : State) (name : Nat) (ds : List Nat) :
+    mdVariable s name (some ds) =
+      .ok ((s.vars.filter (fun v => v.name == name && ds.contains v.grid)).map (·.id)) := rfl
+
 end PorepyVerif.C05
